@@ -4,6 +4,7 @@ import (
 	"bytes"
 	"encoding/binary"
 	"fmt"
+	"runtime"
 	"sync"
 	"sync/atomic"
 	"testing"
@@ -48,6 +49,7 @@ func c15Conc(base uint64, g int, emit func(uint64) []byte, want func(uint64) []b
 			res[i] = make([][]byte, k)
 			atomic.AddInt32(&ready, 1)
 			for atomic.LoadInt32(&ready) < int32(g) {
+				runtime.Gosched() // the barrier must not depend on asynchronous preemption (GOMAXPROCS=1, asyncpreemptoff)
 			}
 			for j := 0; j < k; j++ {
 				res[i][j] = emit(base + uint64(i)<<32 + uint64(j)*0x10001)
